@@ -1,8 +1,5 @@
-import Driver.Epoch
+import Driver.All
 open Driver
-
-def handlersQ : List Handler := [epochQ]
-def handlersF : List Handler := [epochF]
 
 def runLine (line : String) : String :=
   match (line.trimAscii.toString.splitOn " ").filter (· ≠ "") with
